@@ -16,11 +16,11 @@ From Coq Require Import Lia.
 Arguments N.eqb : simpl never.
 
 (* the classes of RoundTripML.v at depth 0: placeables hold a simple inline expression *)
-Local Notation ml_pattern := (RoundTripML.ml_pattern eok0).
-Local Notation ml_elements := (RoundTripML.ml_elements eok0).
-Local Notation ml_line_layout := (RoundTripML.ml_line_layout etext0).
-Local Notation ml_value_layout := (RoundTripML.ml_value_layout etext0).
-Local Notation ml_resource := (RoundTripML.ml_resource eok0).
+Local Notation ml_pattern := (RoundTripML.ml_pattern eoks).
+Local Notation ml_elements := (RoundTripML.ml_elements eoks).
+Local Notation ml_line_layout := (RoundTripML.ml_line_layout etexts).
+Local Notation ml_value_layout := (RoundTripML.ml_value_layout etexts).
+Local Notation ml_resource := (RoundTripML.ml_resource eoks).
 Local Notation text_ok := (RoundTripML.text_ok (goodd 0)).
 Local Notation srel := (RoundTripML.srel (goodd 0)).
 
@@ -63,11 +63,11 @@ Qed.
 Lemma jtext_layout B els : forall prev, ml_elements els prev = true -> ml_line_layout B els (jtext B els).
 Proof.
   induction els as [|el r IH]; intros prev Hs; [constructor|].
-  destruct el as [v | [sel vs | i]]; cbn [RoundTripML.ml_elements eok0] in Hs; try discriminate Hs; cbn [jtext].
+  destruct el as [v | [sel vs | i]]; cbn [RoundTripML.ml_elements eoks] in Hs; try discriminate Hs; cbn [jtext].
   - apply andb_prop in Hs as [Hs Hr]. apply andb_prop in Hs as [_ Hv].
     unfold ml_text in Hv. unfold ltext. destruct (lines_of v) as [|l0 rest] eqn:El; [discriminate Hv|].
     apply andb_prop in Hv as [_ Hrest]. rewrite <- app_assoc.
-    apply (mll_text etext0 B v l0 rest r _ _ El); [apply cont_text_layout, Hrest | apply (IH true Hr)].
+    apply (mll_text etexts B v l0 rest r _ _ El); [apply cont_text_layout, Hrest | apply (IH true Hr)].
   - apply andb_prop in Hs as [Hi Hr].
     change ([123; 32]%N ++ inline_text i ++ [32; 125]%N ++ jtext B r)
       with (123%N :: sp 1 ++ inline_text i ++ [32; 125]%N ++ jtext B r).
@@ -391,8 +391,8 @@ Proof.
   - assert (Hin : In (inr (join_expr e)) (stream J)).
     { rewrite <- Hst. apply placeable_in_stream. exists e. auto. }
     apply placeable_in_stream in Hin as (e0 & He0 & Ej).
-    pose proof (ml_elements_placeables eok0 J false Hs e0 He0) as Hk.
-    destruct e0 as [sel vs | i0]; [discriminate Hk|]. cbn [eok0] in Hk.
+    pose proof (ml_elements_placeables eoks J false Hs e0 He0) as Hk.
+    destruct e0 as [sel vs | i0]; [discriminate Hk|]. cbn [eoks] in Hk.
     change (join_expr (Inline i0)) with (Inline (join_inline i0)) in Ej. rewrite (simple_inline_join i0 Hk) in Ej.
     rewrite (join_expr_simple_inv e i0 (eq_sym Ej) Hk). exact Hk.
 Qed.
@@ -409,7 +409,7 @@ Lemma sml_pok_parts els : sml_pok els = true ->
 Proof.
   unfold sml_pok. intros H. apply andb_prop in H as [Hp Hok]. apply forallb_text_okb in Hok.
   split; [exact Hp | split; [exact Hok|]].
-  destruct (ml_pattern_parts eok0 _ Hp) as (_ & Hs & _).
+  destruct (ml_pattern_parts eoks _ Hp) as (_ & Hs & _).
   apply (split_of_stream els (join_elements els) Hs (eq_sym (stream_join els)) Hok).
 Qed.
 
@@ -457,7 +457,7 @@ Qed.
 
 Lemma sml_pok_final els : sml_pok els = true -> els <> [] /\ no_final_lf els.
 Proof.
-  intros H. destruct (sml_pok_parts els H) as (Hp & Hok & _). destruct (ml_pattern_parts eok0 _ Hp) as (Hne & _ & _ & Hl & _).
+  intros H. destruct (sml_pok_parts els H) as (Hp & Hok & _). destruct (ml_pattern_parts eoks _ Hp) as (Hne & _ & _ & Hl & _).
   split; [intros ->; apply Hne; reflexivity|].
   apply no_final_lf_join; [apply (Forall_impl _ (text_ok_nonempty (goodd 0)) Hok) | apply ml_last_ok_no_final_lf, Hl].
 Qed.
@@ -522,16 +522,16 @@ Definition sml_vlay (els : list pattern_element) (V : bytes) : Prop := ml_value_
 
 Lemma sml_ptext_layout k els : sml_pok els = true -> k <= 1 -> sml_vlay els (sml_ptext k els).
 Proof.
-  intros Hp _. destruct (sml_pok_parts els Hp) as (Hml & _). destruct (ml_pattern_parts eok0 _ Hml) as (_ & Hs & _).
+  intros Hp _. destruct (sml_pok_parts els Hp) as (Hml & _). destruct (ml_pattern_parts eoks _ Hml) as (_ & Hs & _).
   unfold sml_vlay, sml_ptext. set (J := join_elements els) in *. set (B := 4 * S k).
   pose proof (jtext_layout B J false Hs) as HL.
   destruct (starts_on_new_line (Pattern J)) eqn:Est.
   - change (10%N :: sp B ++ jtext B J) with (sp 0 ++ lf ++ [] ++ sp B ++ jtext B J).
-    apply (mvl_block etext0 J 0 lf 0 [] B (jtext B J)); [|left; reflexivity | constructor | unfold B; lia | exact HL].
+    apply (mvl_block etexts J 0 lf 0 [] B (jtext B J)); [|left; reflexivity | constructor | unfold B; lia | exact HL].
     unfold starts_on_new_line in Est. apply andb_prop in Est as [Hd _].
     unfold has_leading_text_dot in Hd. unfold first_byte_ok_for_block. cbn [pattern_elements] in *.
     destruct J as [|[[|b t]|e] r]; try reflexivity. exact Hd.
-  - change (32%N :: jtext B J) with (sp 1 ++ jtext B J). apply (mvl_inline etext0 J 1 B (jtext B J)); [unfold B; lia | exact HL].
+  - change (32%N :: jtext B J) with (sp 1 ++ jtext B J). apply (mvl_inline etexts J 1 B (jtext B J)); [unfold B; lia | exact HL].
 Qed.
 
 (* ---------------------------------------------------------------------------------------------- *)
@@ -547,7 +547,7 @@ Qed.
 
 Lemma rel2_split els'' els : rel2 els'' els -> sml_pok els = true -> Forall split_el els''.
 Proof.
-  intros [Hst Hok''] Hp. destruct (sml_pok_parts els Hp) as (Hml & _). destruct (ml_pattern_parts eok0 _ Hml) as (_ & Hs & _).
+  intros [Hst Hok''] Hp. destruct (sml_pok_parts els Hp) as (Hml & _). destruct (ml_pattern_parts eoks _ Hml) as (_ & Hs & _).
   apply (split_of_stream els'' (join_elements els) Hs); [rewrite Hst; symmetry; apply stream_join | exact Hok''].
 Qed.
 
@@ -583,14 +583,14 @@ Lemma sml_get_pattern bs els V T used c nx p n :
   3 * length (V ++ T) + 12 <= n ->
   exists els', get_pattern bs n p = Ok (Some (Pattern els')) (used + (length V + p)) /\ rel2 els' els.
 Proof.
-  intros Hp HV HT H Hn. destruct (sml_pok_parts els Hp) as (Hml & _). destruct (facts_all 0) as (R & J & W & P).
-  destruct (get_pattern_ml eok0 etext0 (goodd 0) R J P bs (join_elements els) V T used c nx p n Hml HV HT H Hn) as (els' & E & _ & Hok & Hst).
+  intros Hp HV HT H Hn. destruct (sml_pok_parts els Hp) as (Hml & _). pose proof render_facts as R. pose proof join_facts as J. pose proof place_facts as P.
+  destruct (get_pattern_ml eoks etexts (goodd 0) R J P bs (join_elements els) V T used c nx p n Hml HV HT H Hn) as (els' & E & _ & Hok & Hst).
   exists els'. split; [exact E|]. split; [rewrite Hst; apply stream_join | exact Hok].
 Qed.
 
 Lemma sml_strip els V : sml_pok els = true -> sml_vlay els V ->
   exists k V0, V = sp k ++ V0 /\ sml_vlay els (sp 0 ++ V0) /\ forall T, head_not is_space (V0 ++ T).
-Proof. intros Hp HV. destruct (sml_pok_parts els Hp) as (Hml & _). apply (ml_value_layout_strip eok0 etext0 _ V Hml HV). Qed.
+Proof. intros Hp HV. destruct (sml_pok_parts els Hp) as (Hml & _). apply (ml_value_layout_strip eoks etexts _ V Hml HV). Qed.
 
 Definition sml_resource_text (t : resource) : bytes := g_resource_text sml_ptext t.
 
@@ -618,7 +618,7 @@ Qed.
 (* the fragment contains what the parser returns for every layout of a tree of RoundTripML.ml_resource *)
 Lemma srel_sml_pok els' els : srel els' els -> ml_pattern (Pattern els) = true -> sml_pok els' = true.
 Proof.
-  intros (Hj & Hok & Hst) Hp. destruct (ml_pattern_parts eok0 els Hp) as (_ & Hs & _).
+  intros (Hj & Hok & Hst) Hp. destruct (ml_pattern_parts eoks els Hp) as (_ & Hs & _).
   pose proof (split_of_stream els' els Hs Hst Hok) as Hsp.
   unfold jrel in Hj. rewrite (split_join_pattern els' Hsp) in Hj. injection Hj as Hj.
   unfold sml_pok. rewrite Hj, Hp. apply forallb_text_okb, Hok.
@@ -627,9 +627,9 @@ Qed.
 Theorem parser_outputs_sml cs t : ml_resource t = true ->
   exists t', parse (render cs t) = Done (t', []) /\ sml_resource t' = true /\ map join_entry t' = t.
 Proof.
-  intros Ht. destruct (parse_render_sel_split 0 cs t Ht) as (t' & E & Hrel). exists t'. split; [exact E|]. split.
-  - rewrite <- (ml_resource_g eok0) in Ht. unfold sml_resource. clear E. revert Ht.
-    assert (Hattrs : forall a' a, Forall2 (rel_attr srel) a' a -> forallb (g_attribute (ml_pok eok0)) a = true ->
+  intros Ht. destruct (parse_render_ml_split eoks etexts (goodd 0) render_facts join_facts place_facts cs t Ht) as (t' & E & Hrel). exists t'. split; [exact E|]. split.
+  - rewrite <- (ml_resource_g eoks) in Ht. unfold sml_resource. clear E. revert Ht.
+    assert (Hattrs : forall a' a, Forall2 (rel_attr srel) a' a -> forallb (g_attribute (ml_pok eoks)) a = true ->
                                   forallb (g_attribute sml_pok) a' = true).
     { induction 1 as [|x y l l' Hxy Hl IH]; intros Ha; [reflexivity|].
       cbn [forallb] in Ha. apply andb_prop in Ha as [Hy Hl']. cbn [forallb]. rewrite (IH Hl'), andb_true_r.
@@ -663,7 +663,8 @@ Theorem simple_resource_sml t : simple_resource t = true -> sml_resource t = tru
 Proof.
   intros Ht. rewrite <- simple_resource_g in Ht. unfold sml_resource.
   apply (g_resource_mono (fun els => simple_pattern (Pattern els)) sml_pok t); [|exact Ht].
-  intros els Hp. pose proof (simple_pattern_ml _ Hp) as Hml. destruct (simple_pattern_parts els Hp) as (_ & Hs & _).
-  destruct (simple_elements_ml els false Hs) as [Hmle _].
-  unfold sml_pok. rewrite (ml_elements_join eok0 join_fact0 els false Hmle), Hml. apply forallb_text_okb, (simple_elements_text_ok els false Hs).
+  assert (Hsi : forall i, simple_inline i = true -> eoks (Inline i) = true) by (intros i Hi; exact Hi).
+  intros els Hp. pose proof (simple_pattern_ml eoks Hsi _ Hp) as Hml. destruct (simple_pattern_parts els Hp) as (_ & Hs & _).
+  destruct (simple_elements_ml eoks Hsi els false Hs) as [Hmle _].
+  unfold sml_pok. rewrite (ml_elements_join eoks join_facts els false Hmle), Hml. apply forallb_text_okb, (simple_elements_text_ok els false Hs).
 Qed.
